@@ -1380,7 +1380,20 @@ class ForAll(BinaryOperator):
     @property
     @lru_cache(maxsize=None)
     def condition_unique_variable_ids(self) -> List[int]:
-        return [v.id_ for v in self.condition._unique_variables_.difference(self.left._unique_variables_)]
+        return [v.id_ for v in self.condition._unique_variables_.difference(self.left._unique_variables_)
+                if not isinstance(v.value, Literal)]
+
+    @staticmethod
+    def _unify_(first: Dict[int, HashedValue], second: Dict[int, HashedValue]) -> Optional[Dict[int, HashedValue]]:
+        """
+        Merge two partial bindings, a variable that is missing from a binding is unconstrained by it.
+
+        :return: The merged binding or None if the bindings disagree on a shared variable.
+        """
+        for k, v in first.items():
+            if k in second and second[k] != v:
+                return None
+        return {**first, **second}
 
     def _evaluate__(self, sources: Optional[Dict[int, HashedValue]] = None,
                     yield_when_false: bool = False) -> Iterable[Dict[int, HashedValue]]:
@@ -1389,34 +1402,33 @@ class ForAll(BinaryOperator):
         # Always reset per evaluation
         self.solution_set = []
 
-        var_val_index = 0
-
-        for var_val in self.variable._evaluate__(sources):
+        for var_val_index, var_val in enumerate(self.variable._evaluate__(sources)):
             ctx = {**sources, **var_val}
             current = []
 
-            # Evaluate the condition under this particular universal value
+            # Evaluate the condition under this particular universal value, bindings seen for a previous universal
+            # value are not duplicates.
+            self.condition._reset_cache_()
             for condition_val in self.condition._evaluate__(ctx):
                 if self.condition._is_false_:
                     continue
                 # Keep only the non-universal variables from the condition bindings
                 filtered = {k: v for k, v in condition_val.items() if k in self.condition_unique_variable_ids}
-                current.append(filtered)
-
-            # If the condition yields no satisfying bindings for this universal value, the universal fails
-            if not current:
-                self.solution_set = []
-                break
+                if filtered not in current:
+                    current.append(filtered)
 
             if var_val_index == 0:
                 # seed with all satisfying non-universal bindings
                 self.solution_set = current
             else:
                 # Intersect with previously accumulated satisfying bindings
-                current_set = {tuple(sorted(d.items())) for d in current}
-                self.solution_set = [d for d in self.solution_set if tuple(sorted(d.items())) in current_set]
-
-            var_val_index += 1
+                intersection = []
+                for previous in self.solution_set:
+                    for new in current:
+                        unified = self._unify_(previous, new)
+                        if unified is not None and unified not in intersection:
+                            intersection.append(unified)
+                self.solution_set = intersection
 
             # Early exit if the intersection is empty
             if not self.solution_set:
